@@ -123,6 +123,20 @@ def struct_ops(p, classes=("D", "X"), with_bad=True, with_vertex=True):
     if with_bad:
         yield "edge D ! V0"
         yield "edge U V0 !"
+        # `attributes=` that the constructor rejects (a non-dict, a read-only name, a non-string key):
+        # it raises, and must have touched nothing
+        if len(vs) >= 2:
+            yield "edge D V0 V1 bad=1"
+            yield "edge U V1 V0 bad=2"
+            yield "edge D V0 V0 bad=3"
+            yield "edge X V1 V1 bad=4"
+    if len(vs) >= 2:
+        # caller-supplied EQUAL uids on distinct links, and links carrying user attributes
+        yield "edge D V0 V1 x=7"
+        yield "edge U V0 V1 x=7"
+        yield "edge D V1 V0 x=7 la=1"
+        yield "edge D V0 V1 la=3"
+        yield "edge U V1 V1 la=2"
     yield "nlink ."
     yield "nlink V0"
     yield "nlink V0,V0"
